@@ -505,6 +505,28 @@ def oracle(ctx):
                 ctx.violation('a filler that uses a macro itself: the fillers it hands over concern that use only — a later use in the outer macro '
                               'that defines a slot of the same name shows its default content (or its own filler)',
                               {'lib': lib.body, 'caller': caller.body}, expected=want, actual=got)
+    # one element that is a filler *and* uses a macro, with fillers of its own: they belong to the macro it uses, also when the outer
+    # macro has (and the outer use fills, before or after) a slot of the same name
+    lib2 = PageTemplate('<div metal:define-macro="box" class="box"><b metal:define-slot="title">box title</b><p metal:define-slot="body">box body</p></div>'
+                        '<div metal:define-macro="page"><h1 metal:define-slot="title">page title</h1><main metal:define-slot="content">page content</main></div>')
+    for outer_fill, h1 in (('', 'page title'), ('<h1 metal:fill-slot="title">PAGE</h1>', 'PAGE')):
+        for first in (True, False):
+            for kids, inner_out in (('<b metal:fill-slot="title">HEAD</b><p metal:fill-slot="body">BODY</p>', '<b>HEAD</b><p>BODY</p>'),
+                                    ('<b metal:fill-slot="title">HEAD</b>', '<b>HEAD</b><p>box body</p>'),
+                                    ('<p metal:fill-slot="body">BODY ${1 + 1}</p>', '<b>box title</b><p>BODY 2</p>')):
+                inner = '<y metal:fill-slot="content" metal:use-macro="lib.macros[\'box\']">%s</y>' % kids
+                body = (outer_fill + inner) if first else (inner + outer_fill)
+                caller = PageTemplate('<x metal:use-macro="lib.macros[\'page\']">%s</x>' % body)
+                want = '<div><h1>%s</h1><div class="box">%s</div></div>' % (h1, inner_out)
+                ctx.count('evaluations')
+                nt += 1
+                try:
+                    got = caller(lib=lib2)
+                except Exception as e:
+                    got = {'exc': type(e).__name__, 'msg': str(e).split('\n')[0][:100]}
+                if got != want:
+                    ctx.violation('an element that fills a slot and uses a macro: its own fill-slot children fill the slots of the macro it uses',
+                                  {'lib': lib2.body, 'caller': caller.body}, expected=want, actual=got)
     ctx.counters['nontrivial'] = nt
     ctx.sample({'metal': meta[0][0], 'inlined': meta[0][1]})
     # known findings
